@@ -7,7 +7,7 @@ ONE DefaultArgsParser instance.
   arguments, every failure kind (unknown option, value given to a flag, missing required value, surplus
   positional, missing required argument, value that does not convert), lenient partial parses, two
   different formats that re-use the option name `foo` with a different kind, command names that are
-  inserted when omitted, a format with a base format, StringArgs as well as ArgvArgs, and three
+  inserted when omitted, '--' tails, a format with a base format, StringArgs as well as ArgvArgs, and three
   requests that go through Command.parse of two commands whose configs were given the *same* parser
   with Config.set_args_parser.
 * State fingerprint = mc.fingerprint.canon of the parser's full vars() + every data attribute of its
@@ -68,6 +68,8 @@ REQUESTS = [
     ("p", "F2", ("srv", "add", "h", "e", "surplus"), False, "argv"),  # surplus positional
     ("p", "F2", ("server", "add", "-v"), False, "argv"),             # required argument missing (base-format flag set)
     ("p", "F2", ("h", "-p", "80"), False, "str"),                    # command names omitted and re-inserted
+    ("p", "F2", ("--", "server", "h"), True, "argv"),                # everything after '--' is a value, never a command name
+    ("p", "F1", ("-f", "--", "--foo", "3"), False, "argv"),          # option-like tokens after '--' are arguments
     ("c", "alpha", ("alpha", "--foo", "it"), None, "argv"),          # two commands sharing the parser via set_args_parser
     ("c", "beta", ("bt", "--foo", "w", "-m", "z"), None, "argv"),
     ("c", "beta", ("beta", "--nope"), None, "argv"),                 # beta's config enables lenient parsing
@@ -531,7 +533,7 @@ def main():
     thorough = rep.tier == "thorough"
     # VERIF_SEED rotates one extra request into the alphabet of the closed-graph run (core always covered)
     extras = [
-        ("p", "F1", ("-fo", "--", "--foo", "3"), False, "argv"),
+        ("p", "F2", ("srv", "--", "add", "h"), False, "argv"),
         ("p", "F2", ("server", "-p", "x"), True, "argv"),
         ("c", "alpha", ("--foo",), True, "argv"),
         ("p", "F1", ("-o", "v", "-o"), False, "str"),
